@@ -21,6 +21,36 @@ pub fn make_checksum(entries: &[(String, CsVal)]) -> Checksum<'static> {
     c
 }
 
+/// The parts the parser produces for a canonical string, for the type parameter at hand
+/// (`Cow<str>` has no `FromStr`; its strings go through the `String` parser).
+pub trait Reparse {
+    fn reparse_parts(s: &str) -> Option<purl::PurlParts>;
+}
+
+impl Reparse for String {
+    fn reparse_parts(s: &str) -> Option<purl::PurlParts> {
+        s.parse::<GenericPurl<String>>().ok().map(|q| q.into_builder().parts)
+    }
+}
+
+impl Reparse for SmallString {
+    fn reparse_parts(s: &str) -> Option<purl::PurlParts> {
+        s.parse::<GenericPurl<SmallString>>().ok().map(|q| q.into_builder().parts)
+    }
+}
+
+impl Reparse for purl::PackageType {
+    fn reparse_parts(s: &str) -> Option<purl::PurlParts> {
+        s.parse::<purl::Purl>().ok().map(|q| q.into_builder().parts)
+    }
+}
+
+impl Reparse for std::borrow::Cow<'_, str> {
+    fn reparse_parts(s: &str) -> Option<purl::PurlParts> {
+        String::reparse_parts(s)
+    }
+}
+
 /// Outcome of one builder history.
 pub struct HistRun<T> {
     /// (index of call, outcome) for the fallible setters
@@ -34,7 +64,7 @@ pub struct HistRun<T> {
 /// the builder; like a user who kept a clone, we continue from the state before the call.
 pub fn run_hist<'a, T>(h: &'a Hist, mk: &dyn Fn(&'a str) -> Option<T>) -> Option<HistRun<T>>
 where
-    T: PurlShape + Clone,
+    T: PurlShape + Clone + Reparse,
 {
     let mut b = GenericPurlBuilder::new(mk(&h.ty)?, h.name.as_str());
     let mut setters = Vec::new();
@@ -138,6 +168,29 @@ where
                 }) {
                     Out::Ok(Ok(nb)) => Out::Ok(nb),
                     Out::Ok(Err(_)) => Out::Ok(keep),
+                    Out::Err(e) => Out::Err(e),
+                    Out::Panic(p) => Out::Panic(p),
+                }
+            },
+            Call::Reparse => {
+                let keep = b.clone();
+                match crate::obs::guard("build(), to_string(), parse(), into_builder()", || {
+                    b.build().map(|p| {
+                        let parts = T::reparse_parts(&p.to_string());
+                        let mut nb = p.into_builder();
+                        match parts {
+                            Some(parts) => {
+                                nb.parts = parts;
+                                Some(nb)
+                            },
+                            None => None,
+                        }
+                    })
+                }) {
+                    Out::Ok(Ok(Some(nb))) => Out::Ok(nb),
+                    // the canonical string of a built value was refused: C09's business (its
+                    // re-parse clause reports it); here the history continues from the builder
+                    Out::Ok(Ok(None)) | Out::Ok(Err(_)) => Out::Ok(keep),
                     Out::Err(e) => Out::Err(e),
                     Out::Panic(p) => Out::Panic(p),
                 }
